@@ -58,6 +58,21 @@ pub fn build(case: &Case) -> Constraints {
             c.update_range(f, t);
             c
         }
+        5 | 6 | 7 => {
+            // the object a solver hands out through Kinematics::constraints() (what the RRT
+            // planner samples from), for the three kinds of sorting weight
+            use rs_opw_kinematics::kinematic_traits::Kinematics;
+            let weight = [0.0, 1.0, 0.5][(case.ctor - 5) as usize];
+            let c = Constraints::new(case.from, case.to, weight);
+            let params = rs_opw_kinematics::parameters::opw_kinematics::Parameters {
+                a1: 0.15, a2: -0.1, b: 0.0, c1: 0.5, c2: 0.7, c3: 0.7, c4: 0.1,
+                offsets: [0.0, 0.0, -1.0, 0.0, 0.0, 0.5],
+                sign_corrections: [1, -1, 1, -1, 1, -1],
+                dof: 6,
+            };
+            let solver = rs_opw_kinematics::kinematics_impl::OPWKinematics::new_with_constraints(params, c);
+            solver.constraints().expect("solver built with constraints")
+        }
         4 => {
             // the caller widens the public tolerances a little (a soft margin for `compliant`);
             // the limits the sampler must respect are still from/to
@@ -495,9 +510,12 @@ pub fn run(tier_name: &str, seed: u64) -> i32 {
                 2 => 2,
                 3 => 3,
                 4 => 4,
+                5 => 5,
+                6 => 6,
+                7 => 7,
                 _ => 0,
             };
-            tally.bump(&format!("constraints_built_by_{}", ["new", "from_degrees", "update_range", "edited_fields_then_update_range", "new_then_widened_tolerances"][ctor as usize]), 1);
+            tally.bump(&format!("constraints_built_by_{}", ["new", "from_degrees", "update_range", "edited_fields_then_update_range", "new_then_widened_tolerances", "solver_constraints_by_prev", "solver_constraints_by_constraints", "solver_constraints_weight_half"][ctor as usize]), 1);
             let c = build(&Case { from, to, draws: vec![], tasks: 1, cfg: None, ctor, prelude: None });
             let rows = adversarial_rows(&c, &mut w, t.uniform, t.grid, &mut tally);
             let concurrent = t.concurrent_every > 0 && run % t.concurrent_every == 0;
